@@ -267,6 +267,7 @@ func (s *proxyStreamSender) Run(
 	<-shutdownChan.Channel()
 	// Ensure send loop exits promptly
 	close(s.sendMsgChan)
+	vfYield("sender.closed")
 	// Do not block waiting for ack goroutine; it will terminate when stream ends
 }
 
